@@ -114,6 +114,8 @@ def wq_stats(res, st):
             st["rescan"] = st.get("rescan", 0) + 1
             if "over-scanned" in t:
                 st["rescan_over_scanned"] = st.get("rescan_over_scanned", 0) + 1
+        elif t.startswith('"rewind-below"'):
+            st["rewind_below"] = st.get("rewind_below", 0) + 1
         elif t.startswith('"rewind"'):
             # (printed once per candidate settling height: counted once per event)
             f = [x.strip().strip('"') for x in t.split(",")]
@@ -303,6 +305,20 @@ def run(ctx):
                                     "event": None, "expected": None, "history": [json.loads(x) for x in lines[:80]]},
                               "an insertion apart from the stored queue left the heights between unqueued (the table is not a "
                               "partition of an interval) and known_findings.json does not list that finding as open")
+        if wqstats.get("rewind_below", 0):
+            open_ids = {f["id"]: f for f in lib.load_known_findings() if f.get("property") == "C15" and f.get("status") == "open"}
+            kf = open_ids.get("C15-rewind-above-every-checkpoint-drops-coverage")
+            if kf:
+                lib.known_finding(ctx, "id=%s %s" % (kf["id"], kf["what"][:300]))
+            elif not ctx.violations:
+                with open(qpath) as f:
+                    lines = f.read().splitlines()
+                start = max(k for k in range(len(lines)) if json.loads(lines[k])["a"] == "reset")
+                lib.violation(ctx, {"property": "C15", "kind": "wallet_queue_priorities", "first_unmatched_event": 0,
+                                    "event": None, "expected": None, "history": [json.loads(x) for x in lines[start:]]},
+                              "rewind_to_chain_state settled below its target, dropped scanned blocks at or below the target and did "
+                              "not queue them again (heights neither scanned nor queued), and known_findings.json does not list that "
+                              "finding as open")
     if not ctx.violations and (qstats["syncdone"] < 4 or qstats["client_steps"] < 20):
         raise lib.ToolError("vacuity: sync loop not exercised: %s" % qstats)
     # what the wallet-level validation must have seen: batches that found notes in two pools with different shard
